@@ -72,8 +72,12 @@ func runOne(prop string, pd *propDef, seed uint64, idx int64, tier string, sc *S
 	o := &Outcome{Seed: seed, Index: idx, Prop: prop, Family: sc.Family, Kernel: rd.Res.Verdict,
 		Hash: rd.Res.Hash, Steps: rd.Res.Steps, Switches: rd.Res.Switches, SimNanos: rd.Res.Now - sc.Sim.StartNanos,
 		Tasks: rd.Res.NTasks, Probes: rd.Res.Probes, Faults: rd.Res.Faults}
+	// the property's history oracle runs first: it may refine the signatures of
+	// violations raised while the run proceeded (rd.Monitor) with facts that are
+	// only known afterwards
+	checked := pd.check(rd)
 	vs := append([]Violation(nil), rd.Monitor...)
-	vs = append(vs, pd.check(rd)...)
+	vs = append(vs, checked...)
 	// kernel-level verdicts every property reports: an unexpected panic
 	if rd.Res.Verdict == "panic" {
 		vs = append(vs, Violation{prop + "/panic/" + panicSite(rd), rd.Res.Detail})
